@@ -1,7 +1,7 @@
 (* Inductive part of C05, third half: the bodies.  Patching a placeholder when
    its body is emitted, the end instructions, the LIFO emission of the bodies a
-   body registers, and the theorem: for every proper tree outside C05-K1 /
-   C05-K2 and every initial state, the compiled code is well-formed. *)
+   body registers, and the theorem: for every proper tree outside C05-K2 and
+   every initial state, the compiled code is well-formed. *)
 From Coq Require Import List Arith Bool NArith Lia.
 From GV Require Import Base.Result Gen.TokenTypes Gen.Defs Gen.Instr Gen.Exec Model.Parser Model.BuilderWL Model.Compile
   Spec.WfCode Proofs.C05.InlBase Proofs.C05.Known Proofs.C05.Operands Proofs.C05.Jumps.
@@ -123,14 +123,20 @@ Lemma term_last_emit : forall s io m, is_terminator io = true -> term_last (emit
 Proof. intros s io m Ht _. exists io. split; [apply iat_emit_last | exact Ht]. Qed.
 
 (* what finish does, case by case *)
+Definition end_target (s : cst) : bool := existsb (Nat.eqb (IL s)) (cj s).
+
+Lemma end_target_in : forall s, In (IL s) (cj s) -> end_target s = true.
+Proof. intros s H. unfold end_target. apply existsb_exists. exists (IL s). split; [exact H | apply Nat.eqb_refl]. Qed.
+
 Lemma finish_default : forall s,
-  finish init s default_end = s /\ last_instr init s = Some (I_EndExpression, ONone)
+  (finish init s default_end = s /\ last_instr init s = Some (I_EndExpression, ONone) /\ end_target s = false)
   \/ finish init s default_end = emit s (I_EndExpression, ONone) None.
 Proof.
-  intros s. unfold finish, default_end. cbn [fold_left].
+  intros s. unfold finish, default_end. cbn [fold_left]. fold (end_target s).
   destruct (last_instr init s) as [li|]; [|right; reflexivity].
   destruct (instr_eqb li (I_EndExpression, ONone)) eqn:E; cbn [andb fst]; [|right; reflexivity].
-  left. split; [reflexivity|]. f_equal. destruct li as [i o]. unfold instr_eqb in E. cbn [fst snd] in E.
+  destruct (end_target s) eqn:Et; cbn [negb andb]; [right; reflexivity|].
+  left. split; [reflexivity|]. split; [|reflexivity]. f_equal. destruct li as [i o]. unfold instr_eqb in E. cbn [fst snd] in E.
   apply andb_true_iff in E. destruct E as [Ei Eo].
   destruct o; try discriminate. destruct i; try discriminate. reflexivity.
 Qed.
@@ -157,7 +163,7 @@ Lemma finish_spec : forall s ends H,
   let s3 := finish init s ends in
   ext s s3 /\ cj s3 = cj s /\ jinv init H s3 /\ bsinv init s3 /\ term_last s3 /\
   IL s <= IL s3 /\ (ends <> default_end -> IL s < IL s3) /\
-  (ends = default_end -> IL s3 = IL s -> last_instr init s = Some (I_EndExpression, ONone)).
+  (ends = default_end -> IL s3 = IL s -> last_instr init s = Some (I_EndExpression, ONone) /\ end_target s = false).
 Proof.
   intros s ends H Hs Hj Hb. cbv zeta.
   assert (Bend : forall s0 e m, bsinv init s0 -> (e = (I_EndExpression, ONone) \/ e = (I_Tis, ONone) \/ exists j, e = (I_JumpTo, ONum j)) ->
@@ -166,7 +172,7 @@ Proof.
     destruct He as [He|[He|[j' He]]]; subst e; discriminate Hr. }
   assert (Tl : forall s0 e m, is_terminator e = true -> term_last (emit s0 e m)) by (intros; apply term_last_emit; assumption).
   destruct Hs as [Hs|[[j Hs]|[j Hs]]]; subst ends.
-  - destruct (finish_default s) as [[Hf Hl]|Hf]; rewrite Hf.
+  - destruct (finish_default s) as [[Hf [Hl Hnt]]|Hf]; rewrite Hf.
     + splits; auto using ext_refl.
       * intros Hil. destruct (ci s) as [|c0 cs] eqn:Ec.
         { exfalso. unfold il in Hil. rewrite Ec in Hil. cbn in Hil. lia. }
@@ -247,7 +253,7 @@ Proof.
   cbn [run_body] in Hrun.
   apply bind_ok in Hrun. destruct Hrun as [s1 [Hpatch Hrun]].
   apply bind_ok in Hrun. destruct Hrun as [[[s2 ps] its] [Hinl Hrun]].
-  destruct Hlive as [[Hdrop Hempty] [Hshape Hsil]].
+  destruct Hlive as [Hdrop Hshape].
   destruct (patch_spec _ _ _ _ Hpatch) as [_ [_ [Hci [_ [Hlen _]]]]].
   assert (HIL1 : IL s1 = IL s) by (unfold il; rewrite Hci; reflexivity).
   assert (HJL1 : JL s1 = JL s) by (unfold jl; rewrite Hlen; reflexivity).
@@ -260,7 +266,7 @@ Proof.
   pose proof (inl_jinv init lit_ok _ Hdrop _ _ _ _ _ _ Hinl H Hj1) as Hj2.
   pose proof (inl_bsinv init lit_ok _ _ _ _ _ _ _ Hinl Hb1 Hcont1) as Hb2.
   pose proof (inl_pend_cont init lit_ok _ _ _ _ _ _ _ Hinl Hcont1) as Hpc2.
-  destruct (inl_live init lit_ok _ (conj Hdrop Hempty) _ _ _ _ _ _ Hinl) as [Hlive2 _].
+  destruct (inl_live init lit_ok _ Hdrop _ _ _ _ _ _ Hinl) as [Hlive2 _].
   destruct (inl_pend_range init lit_ok _ _ _ _ _ _ _ Hinl) as [Hrng2 _].
   pose proof (inl_ext init lit_ok _ _ _ _ _ _ _ Hinl) as E12.
   pose proof (ext_il init _ _ E12) as Eil. pose proof (ext_jl init _ _ E12) as Ejl.
@@ -270,8 +276,14 @@ Proof.
   assert (HJL3 : JL s3 = JL s2) by (unfold jl; rewrite Hcj3; reflexivity).
   assert (Hgrow : IL s < IL s3).
   { destruct Hshape as [Hd|[[j Hd]|[j Hd]]].
-    - assert (IL s1 < IL s2); [|lia].
-      apply (proj2 (inl_grow init lit_ok _ _ _ _ _ _ _ Hinl)); [reflexivity | apply Hsil; exact Hd].
+    - (* nothing emitted and no end instruction added: the patched entry names the end of the stream *)
+      destruct (Nat.eq_dec (IL s3) (IL s2)) as [E3|E3]; [|lia].
+      destruct (Nat.eq_dec (IL s2) (IL s1)) as [E2|E2]; [|lia].
+      exfalso. destruct (Helide Hd E3) as [_ Hnt].
+      rewrite end_target_in in Hnt; [discriminate|].
+      destruct (patch_spec _ _ _ _ Hpatch) as [_ [_ [_ [_ [_ [Hnew _]]]]]].
+      pose proof E12 as [a0 [b0 [c0 [_ [_ [Hcj _]]]]]]. rewrite Hcj. apply in_or_app. left.
+      rewrite E2, HIL1. eapply nth_error_In. exact Hnew.
     - assert (IL s2 < IL s3); [|lia]. apply Hgrow3. rewrite Hd. discriminate.
     - assert (IL s2 < IL s3); [|lia]. apply Hgrow3. rewrite Hd. discriminate. }
   assert (Hne1 : cj s1 <> []) by (destruct Hj1; assumption).
@@ -299,10 +311,10 @@ Qed.
 
 (* ---- the whole build: every placeholder is patched ---- *)
 Lemma compile_jinv : forall t s4 e,
-  tree_good t -> empty_after_end init t = false ->
+  tree_good t ->
   compile init lit_ok t = Ok (s4, e) -> jinv init [] s4.
 Proof.
-  intros t s4 e [Hdrop Hempty] Hk1 Hc.
+  intros t s4 e Hdrop Hc.
   unfold compile in Hc.
   apply bind_ok in Hc. destruct Hc as [[[s2 ps] its] [Hinl Hc]].
   apply bind_ok in Hc. destruct Hc as [s4' [Hfold Hc]]. inversion Hc; subst s4' e. clear Hc.
@@ -323,7 +335,7 @@ Proof.
   pose proof (inl_jinv init lit_ok _ Hdrop _ _ _ _ _ _ Hinl [] Hj1) as Hj2.
   pose proof (inl_bsinv init lit_ok _ _ _ _ _ _ _ Hinl Hb1 Hcont1) as Hb2.
   pose proof (inl_pend_cont init lit_ok _ _ _ _ _ _ _ Hinl Hcont1) as Hpc2.
-  destruct (inl_live init lit_ok _ (conj Hdrop Hempty) _ _ _ _ _ _ Hinl) as [Hlive2 _].
+  destruct (inl_live init lit_ok _ Hdrop _ _ _ _ _ _ Hinl) as [Hlive2 _].
   destruct (inl_pend_range init lit_ok _ _ _ _ _ _ _ Hinl) as [Hrng2 _].
   pose proof (inl_ext init lit_ok _ _ _ _ _ _ _ Hinl) as E12.
   pose proof (ext_il init _ _ E12) as Eil. pose proof (ext_jl init _ _ E12) as Ejl.
@@ -333,15 +345,13 @@ Proof.
   assert (HJL3 : JL s3 = JL s2) by (unfold jl; rewrite Hcj3; reflexivity).
   (* the first body emits at least one instruction *)
   assert (Hgrow : ilo < IL s3).
-  { destruct (silent t) eqn:Es.
-    - destruct (Nat.eq_dec (IL s3) (IL s2)) as [Heq|Hne]; [|lia].
-      destruct (Nat.eq_dec (IL s2) ilo) as [Heq2|Hne2]; [|lia].
-      exfalso. pose proof (Helide eq_refl Heq) as Hl.
-      assert (Hnil : ci s2 = []) by (unfold il in Heq2; destruct (ci s2); [reflexivity | cbn in Heq2; lia]).
-      unfold last_instr in Hl. rewrite Hnil in Hl. cbn in Hl.
-      unfold empty_after_end in Hk1. rewrite Es, Hl in Hk1. cbn in Hk1. discriminate.
-    - assert (IL s1 < IL s2); [|lia].
-      apply (proj2 (inl_grow init lit_ok _ _ _ _ _ _ _ Hinl)); [reflexivity | exact Es]. }
+  { (* nothing emitted and no end instruction added: the first entry names the end of the stream *)
+    destruct (Nat.eq_dec (IL s3) (IL s2)) as [Heq|Hne]; [|lia].
+    destruct (Nat.eq_dec (IL s2) ilo) as [Heq2|Hne2]; [|lia].
+    exfalso. destruct (Helide eq_refl Heq) as [_ Hnt].
+    rewrite end_target_in in Hnt; [discriminate|].
+    pose proof E12 as [a0 [b0 [c0 [_ [_ [Hcj _]]]]]]. rewrite Hcj. apply in_or_app. left.
+    rewrite Heq2. unfold s1. cbn. left. unfold il. cbn. lia. }
   destruct (fold_spec (size t) (run_body_spec (size t)) (rev ps) s3 s4 [] Hfold) as [Hj4 [Hb4 [Ht4 [Hil4 [Hst4 [Hjl4 _]]]]]]; auto.
   { apply Forall_rev. exact Hlive2. }
   { apply Forall_rev. eapply Forall_impl; [|exact Hrng2]. cbv beta. intros q Hq. lia. }
@@ -354,10 +364,10 @@ Qed.
 Variable nodes : list pnode.
 
 Theorem compile_wf : forall t r,
-  tree_in nodes t -> tree_good t -> empty_after_end init t = false ->
+  tree_in nodes t -> tree_good t ->
   compile init lit_ok t = Ok r -> wf_code nodes init (code_of_compile r).
 Proof.
-  intros t r Htin [Hdrop Hempty] Hk1 Hc.
+  intros t r Htin Hdrop Hc.
   destruct (compile_operands_meta nodes init lit_ok t r Htin Hc) as [Hops Hmeta].
   unfold compile in Hc.
   apply bind_ok in Hc. destruct Hc as [[[s2 ps] its] [Hinl Hc]].
@@ -379,7 +389,7 @@ Proof.
   pose proof (inl_jinv init lit_ok _ Hdrop _ _ _ _ _ _ Hinl [] Hj1) as Hj2.
   pose proof (inl_bsinv init lit_ok _ _ _ _ _ _ _ Hinl Hb1 Hcont1) as Hb2.
   pose proof (inl_pend_cont init lit_ok _ _ _ _ _ _ _ Hinl Hcont1) as Hpc2.
-  destruct (inl_live init lit_ok _ (conj Hdrop Hempty) _ _ _ _ _ _ Hinl) as [Hlive2 _].
+  destruct (inl_live init lit_ok _ Hdrop _ _ _ _ _ _ Hinl) as [Hlive2 _].
   destruct (inl_pend_range init lit_ok _ _ _ _ _ _ _ Hinl) as [Hrng2 _].
   pose proof (inl_ext init lit_ok _ _ _ _ _ _ _ Hinl) as E12.
   pose proof (ext_il init _ _ E12) as Eil. pose proof (ext_jl init _ _ E12) as Ejl.
@@ -389,15 +399,13 @@ Proof.
   assert (HJL3 : JL s3 = JL s2) by (unfold jl; rewrite Hcj3; reflexivity).
   (* the first body emits at least one instruction *)
   assert (Hgrow : ilo < IL s3).
-  { destruct (silent t) eqn:Es.
-    - destruct (Nat.eq_dec (IL s3) (IL s2)) as [Heq|Hne]; [|lia].
-      destruct (Nat.eq_dec (IL s2) ilo) as [Heq2|Hne2]; [|lia].
-      exfalso. pose proof (Helide eq_refl Heq) as Hl.
-      assert (Hnil : ci s2 = []) by (unfold il in Heq2; destruct (ci s2); [reflexivity | cbn in Heq2; lia]).
-      unfold last_instr in Hl. rewrite Hnil in Hl. cbn in Hl.
-      unfold empty_after_end in Hk1. rewrite Es, Hl in Hk1. cbn in Hk1. discriminate.
-    - assert (IL s1 < IL s2); [|lia].
-      apply (proj2 (inl_grow init lit_ok _ _ _ _ _ _ _ Hinl)); [reflexivity | exact Es]. }
+  { (* nothing emitted and no end instruction added: the first entry names the end of the stream *)
+    destruct (Nat.eq_dec (IL s3) (IL s2)) as [Heq|Hne]; [|lia].
+    destruct (Nat.eq_dec (IL s2) ilo) as [Heq2|Hne2]; [|lia].
+    exfalso. destruct (Helide eq_refl Heq) as [_ Hnt].
+    rewrite end_target_in in Hnt; [discriminate|].
+    pose proof E12 as [a0 [b0 [c0 [_ [_ [Hcj _]]]]]]. rewrite Hcj. apply in_or_app. left.
+    rewrite Heq2. unfold s1. cbn. left. unfold il. cbn. lia. }
   destruct (fold_spec (size t) (run_body_spec (size t)) (rev ps) s3 s4 [] Hfold) as [Hj4 [Hb4 [Ht4 [Hil4 [Hst4 [Hjl4 _]]]]]]; auto.
   { apply Forall_rev. exact Hlive2. }
   { apply Forall_rev. eapply Forall_impl; [|exact Hrng2]. cbv beta. intros q Hq. lia. }
